@@ -86,6 +86,17 @@ func (ex *Exec) assumeInvariants(st *State, fn *ssa.Function, l *Loop) {
 			ex.d.trust("range-loop index stays within [-1, len) by construction of go/ssa's lowering")
 		}
 	}
+	for _, in := range l.header.Instrs {
+		if phi, ok := in.(*ssa.Phi); ok && phi.Comment == "rangeint.iter" {
+			if v, ok := fr.env[phi].(Term); ok {
+				st.assume(ge(v, intLit(0)))
+				if n := ex.rangeLen(st, fr, l, phi); !n.IsZero() {
+					st.assume(lt(v, n)) // bottom-tested loop: entered only when 0 < n, repeated only when i+1 < n
+				}
+				ex.d.trust("range-over-int counter stays within [0, n) by construction of go/ssa's lowering")
+			}
+		}
+	}
 	ls := ex.loopSpec(fn, l)
 	if ls == nil {
 		return
